@@ -230,7 +230,7 @@ def shown_name(n):
 # what a thread's program makes reach the layer (independent bookkeeping of spans and scopes)
 
 class Em:
-    __slots__ = ("meta", "cs", "scope", "fields", "marker", "kind", "status", "nested", "top", "thread", "op", "uid", "abn_text", "jfields", "explicit", "ctx_scope", "poisoned")
+    __slots__ = ("meta", "cs", "scope", "fields", "marker", "kind", "status", "nested", "top", "thread", "op", "uid", "abn_text", "jfields", "explicit", "ctx_scope", "poisoned", "tidx", "time_fail")
 
     def __init__(self):
         self.nested = []
@@ -240,6 +240,30 @@ class Em:
         self.explicit = False
         self.ctx_scope = []
         self.poisoned = False
+        self.tidx = None
+        self.time_fail = None
+
+
+JSON_TIMER_BAILS = [True]      # Format<Json>::format_event has `timer.format_time(..)?` (read from the source in run())
+
+
+def timer_fault(case, t, idx):
+    """what the configured timer does at the idx-th format_time call of thread t: None = writes the timestamp; a string =
+    writes that and returns Err"""
+    if not case["opts"].get("timer"):
+        return None
+    tf = case.get("timer_faults") or []
+    return (tf[t] if t < len(tf) else {}).get(str(idx))
+
+
+def next_tidx(case):
+    c = case.setdefault("_tctr", [0])
+    c[0] += 1
+    return c[0] - 1
+
+
+def time_text(e):
+    return "TIME" if e.time_fail is None else e.time_fail + "<unknown time>"
 
 
 def cs_meta(cs):
@@ -262,8 +286,13 @@ def build_event(case, t, opi, cs_idx, vals, scope, top, counter, explicit, ctx_s
     e.explicit = explicit
     e.uid = counter[0]
     counter[0] += 1
+    e.tidx = next_tidx(case)          # the timer is asked first, once per emission, in START order (outer before nested)
+    e.time_fail = timer_fault(case, t, e.tidx)
     e.fields = []      # (name, rendered text) of the fields that get formatted completely
     e.jfields = []     # (name, json value)
+    if e.time_fail is not None and case["format"] == "json" and JSON_TIMER_BAILS[0]:
+        e.status = "err"               # Format<Json>: `self.timer.format_time(..)?` before anything else (finding F133)
+        return e
     for name, v in zip(cs["fields"], vals):
         if "panic" in v or "err" in v:
             is_panic = "panic" in v or case["format"] == "json"
@@ -300,6 +329,10 @@ def lifecycle(case, t, opi, kind, sp, counter):
     e.op = opi
     e.uid = counter[0]
     counter[0] += 1
+    e.tidx = next_tidx(case)
+    e.time_fail = timer_fault(case, t, e.tidx)
+    if e.time_fail is not None and case["format"] == "json" and JSON_TIMER_BAILS[0]:
+        e.status = "err"
     e.fields = [("message", kind)]
     if kind == "close" and case["opts"].get("timer"):
         e.fields += [("time.busy", "T"), ("time.idle", "T")]
@@ -343,6 +376,7 @@ def record_op(case, sp, op, side, t, opi):
 def thread_emissions(case, t, counter, side=None):
     """top-level things reaching on_event on thread t, in program order: Em objects and ('direct', text)"""
     side = side if side is not None else []
+    case["_tctr"] = [0]
     se = set(case["opts"].get("span_events", []))
     out = []
     stack = []
@@ -431,7 +465,7 @@ def tokens(case, e):
     flds = [("%s" % v) if n == "message" else "%s=%s" % (shown_name(n), v) for n, v in e.fields]
     if f in ("full", "compact"):
         if o.get("timer"):
-            ordered.append("TIME")
+            ordered.append(time_text(e))      # a failing timer: "<unknown time>" in place of the timestamp, the rest intact
         if o.get("level"):
             ordered.append((FULL_LV if f == "full" else COMPACT_LV)[lvl])
         if f == "full":
@@ -453,7 +487,7 @@ def tokens(case, e):
                         ordered.append(v if n == "message" else "%s=%s" % (shown_name(n), v))
     elif f == "pretty":
         if o.get("timer"):
-            ordered.append("TIME")
+            ordered.append(time_text(e))
         if o.get("level"):
             ordered.append(FULL_LV[lvl])
         if o.get("target"):
@@ -1008,6 +1042,50 @@ def gen_race_cases(rng, n):
     return cases
 
 
+def assign_timer_faults(rng, c, p, chooser=None):
+    """make the configured timer fail for some emissions: case["timer_faults"][t][k] = what the k-th format_time call of thread t
+    writes before it returns Err.  chooser(t, k) fixes it (sweeps)."""
+    c["opts"]["timer"] = True
+    c.pop("timer_faults", None)
+    tf = []
+    for t, items in enumerate(case_items(c)):
+        d = {}
+        for e in items:
+            if isinstance(e, tuple):
+                continue
+            pre = chooser(t, e.tidx) if chooser else (rng.choice(["", "", "12:", "T"]) if rng.random() < p else None)
+            if pre is not None:
+                d[str(e.tidx)] = pre
+        tf.append(d)
+    c["timer_faults"] = tf
+    return c
+
+
+def gen_timerfault_cases(rng, nrandom):
+    """a clock that cannot be read.  Sweep: 3 emissions (event, `new` record of a span, event inside it) x EVERY subset of
+    failing timer calls x the four formats; plus random failures over ordinary content programs (no nested / aborted events:
+    Format<Json> bails before it formats anything, which would change what else reaches the layer)."""
+    cases = []
+    for fi, fmt in enumerate(["full", "compact", "pretty", "json"]):
+        for mask in range(8):
+            cb = CaseBuilder(rng)
+            sp = cb.cs("span", rng.choice(SPAN_NAMES), rng.choice(TARGETS), 3, ["a"])
+            ev = cb.cs("event", "event e0", "app", rng.randint(1, 5), ["seq", "message"])
+            o = gen_opts(rng, "content")
+            o.update({"ansi": (mask + fi) % 4 == 0, "span_events": ["new"], "lie": mask % 2 == 0})
+            prog = [{"op": "event", "cs": ev, "vals": [{"i": 100001}, {"d": "first"}], "parent": None},
+                    {"op": "enter", "cs": sp, "vals": [{"i": 1}], "parent": None},
+                    {"op": "event", "cs": ev, "vals": [{"i": 100002}, {"d": "inside"}], "parent": None}, {"op": "exit"}]
+            c = {"id": 0, "kind": "timerfault", "format": fmt, "opts": o, "nsinks": 1, "sink_kinds": ["rec"], "writer": {"k": "sink", "i": 0},
+                 "callsites": cb.callsites, "threads": [prog], "global": False}
+            cases.append(assign_timer_faults(rng, c, 0, chooser=lambda t, k, mask=mask: (["", "12:", "T"][(k + mask) % 3] if mask >> k & 1 else None)))
+    for _ in range(nrandom):
+        c = gen_case(rng, 0, "content")
+        c["kind"] = "timerfault"
+        cases.append(assign_timer_faults(rng, c, 0.4))
+    return cases
+
+
 def gen_poison_cases(rng, n):
     """F132's history: a span, a record on it whose value's Debug impl panics (caught), then events inside the span (contextual,
     explicit child, in a child span), outside it (explicit root), a later healthy record on it, exit, an event afterwards.
@@ -1138,10 +1216,11 @@ def coq_wexp(w):
     return "(WOrElse %s %s)" % (coq_wexp(w["a"]), coq_wexp(w["b"]))
 
 
-def coq_emeta(cs):
-    return "(EMeta %d %s %s %s %s %s)" % (cs["level"], B(cs["target"]), B(cs["name"]),
-                                        "(Some %s)" % B(cs["file"]) if cs["file"] is not None else "None",
-                                        "(Some %s)" % B(str(cs["line"])) if cs["line"] is not None else "None", cb_(cs["kind"] == "span"))
+def coq_emeta(cs, time_fail=None):
+    return "(EMeta %d %s %s %s %s %s %s)" % (cs["level"], B(cs["target"]), B(cs["name"]),
+                                           "(Some %s)" % B(cs["file"]) if cs["file"] is not None else "None",
+                                           "(Some %s)" % B(str(cs["line"])) if cs["line"] is not None else "None", cb_(cs["kind"] == "span"),
+                                           "None" if time_fail is None else "(Some %s)" % B(time_fail))
 
 
 def coq_meta(m):
@@ -1153,9 +1232,12 @@ def coq_scope(scope):
                            for sp in scope) + "]"
 
 
-def coq_emission(case, cs_idx, vals, scope, ctx_scope=None, root=False):
+def coq_emission(case, cs_idx, vals, scope, ctx_scope=None, root=False, t=0, tidx=None):
     ctx_scope = scope if ctx_scope is None else ctx_scope
     cs = case["callsites"][cs_idx]
+    tidx = tidx if tidx is not None else [0]
+    time_fail = timer_fault(case, t, tidx[0])
+    tidx[0] += 1
     parts = []
     tail = "FNil"
     items = []
@@ -1168,7 +1250,7 @@ def coq_emission(case, cs_idx, vals, scope, ctx_scope=None, root=False):
             break
         if "nested" in v:
             n = v["nested"]
-            items.append(("nested", name, coq_emission(case, n["cs"], n["vals"], ctx_scope), v.get("text", "")))
+            items.append(("nested", name, coq_emission(case, n["cs"], n["vals"], ctx_scope, None, False, t, tidx), v.get("text", "")))
             continue
         r = render_value(name, v)
         if r is None:
@@ -1185,8 +1267,8 @@ def coq_emission(case, cs_idx, vals, scope, ctx_scope=None, root=False):
         else:
             term = "(FErr %s %s)" % (B(it[1]), B(it[2]))
     if case["format"] == "pretty" and root:      # which spans Pretty walks for an explicit root is read from the source
-        return "(Em %s (pscope true %s %s) %s)" % (coq_emeta(cs), coq_scope(scope), coq_scope(ctx_scope), term)
-    return "(Em %s %s %s)" % (coq_emeta(cs), coq_scope(scope), term)
+        return "(Em %s (pscope true %s %s) %s)" % (coq_emeta(cs, time_fail), coq_scope(scope), coq_scope(ctx_scope), term)
+    return "(Em %s %s %s)" % (coq_emeta(cs, time_fail), coq_scope(scope), term)
 
 
 def coq_script(sc):
@@ -1233,6 +1315,8 @@ def model_ops(case, t):
     stack = []
     prog = case["threads"][t]
     LK = {"new": "LNew", "enter": "LEnter", "exit": "LExit", "close": "LClose"}
+    se_on = set(case["opts"].get("span_events", []))
+    tidx = [0]
 
     def scope_of(parent):
         if parent is None:
@@ -1245,7 +1329,11 @@ def model_ops(case, t):
     def span_op(kind, sp):
         cs = case["callsites"][sp["cs"]]
         sc = [snap(x) for x in sp["chain"]] + [snap(sp)]
-        segs[-1][1].append("OpSpan %s %s %s" % (LK[kind], coq_emeta(cs), coq_scope(sc)))
+        tf = None
+        if kind in se_on:        # only a configured lifecycle point reaches a formatter (and asks the timer)
+            tf = timer_fault(case, t, tidx[0])
+            tidx[0] += 1
+        segs[-1][1].append("OpSpan %s %s %s" % (LK[kind], coq_emeta(cs, tf), coq_scope(sc)))
 
     for op in prog:
         o = op["op"]
@@ -1275,7 +1363,7 @@ def model_ops(case, t):
             sc, _ = scope_of(op.get("parent"))
             par = op.get("parent")
             root = par is not None and (par < 0 or par >= len(stack))
-            segs[-1][1].append("OpEvent %s" % coq_emission(case, op["cs"], op["vals"], sc, scope_of(None)[0], root))
+            segs[-1][1].append("OpEvent %s" % coq_emission(case, op["cs"], op["vals"], sc, scope_of(None)[0], root, t, tidx))
         elif o == "direct":
             segs.append(("direct", op["text"]))
             segs.append(("ops", []))
@@ -1428,6 +1516,7 @@ def check_thread(rep, c, case_min, t, items, calls, f9_counter, observed_caught=
     aborts = []
     unwinds = []
     f132 = f132 if f132 is not None else [False]
+    f133 = [False]
     lie = c["opts"].get("lie")
 
     def viol(what, e, **extra):
@@ -1443,6 +1532,12 @@ def check_thread(rep, c, case_min, t, items, calls, f9_counter, observed_caught=
         is_direct = isinstance(e, tuple)
         if not is_direct:
             rep.count("emission:" + e.kind + ("" if e.status == "ok" else "-" + e.status) + ("" if e.top else "-nested"))
+        if not is_direct and e.time_fail is not None:
+            rep.count("timer-failed-at-emission")
+            if c["format"] == "json" and JSON_TIMER_BAILS[0] and not f133[0]:
+                f133[0] = True
+                rep.violation("the JSON formatter drops the record of an event when the configured timer returns Err (the text formatters "
+                              "print <unknown time> and keep the record)", {"case": case_min, "thread": t, "op": e.op, "marker": e.marker}, finding="F133")
         D = routed(c, e)
         if D is None:
             if e.status == "panic":
@@ -1641,6 +1736,8 @@ def run(ctx):
     rep.tie("translator:Gen_fmtbuf", not unrec, "; ".join(unrec[:4]), unrec[:1] or None)
     policy = re.search(r"clear_policy : policy := (\w+)\.", text).group(1)
     tee_both = re.search(r"tee_runs_both : bool := (\w+)\.", text).group(1)
+    JSON_TIMER_BAILS[0] = re.search(r"json_timer_bails : bool := (\w+)\.", text).group(1) == "true"
+    rep.extra["timer_fallback_in_tree"] = re.search(r"timer_fallback : bool := (\w+)\.", text).group(1)
     rep.extra["clear_policy_in_tree"] = policy
     rep.extra["tee_runs_both_in_tree"] = tee_both
     ctx.log("buffer clearing policy in the tree: %s; impl_tee! runs both writers: %s" % (policy, tee_both))
@@ -1686,6 +1783,7 @@ def run(ctx):
             cases += gen_teefault_cases(rng)
         cases += gen_lifecycle_cases(rng)
         cases += gen_race_cases(rng, 6 * scale)
+        cases += gen_timerfault_cases(rng, 16 * scale)
         poison = gen_poison_cases(rng, 8 * scale)
         cases += poison
         for pc in poison[:4 * scale]:          # the same histories on the build whose locks do not poison (parking_lot feature)
@@ -1715,7 +1813,7 @@ def run(ctx):
     # ---- expectations (python bookkeeping), oracle
     per_case = {}
     f9_counter = [0]
-    CASE_KEYS = ("format", "opts", "nsinks", "sink_kinds", "writer", "callsites", "threads", "faults", "plans", "global", "pl")
+    CASE_KEYS = ("format", "opts", "nsinks", "sink_kinds", "writer", "callsites", "threads", "faults", "plans", "timer_faults", "global", "pl")
     for c in cases:
         cid = c["id"]
         o = obs.get(cid)
